@@ -275,7 +275,7 @@ def run(ctx):
     ctx.rule = ("per dtype: the union of the C01 input streams of asin, atanh, log1p, sqrt, exp (log-uniform, mid-range, +-4 ULP around thresholds, special lattice incl. zeros "
                 "and infinities); every identity evaluated on every point outside its branch-cut exclusion; non-trivial = an identity instance checked; distinct by (identity, input)")
     generate(ctx)
-    broken = ctx.lean_stage(["FAVerif.Props.C03"], THEOREMS)
+    broken = ctx.lean_stage(["FAVerif.Props.C03", "FAVerif.Props.C03Sym"], THEOREMS)
     lb = check_libok(ctx)
     if lb:
         broken.append(ctx.broken("libm-assumption:LibOK", "platform libm violates an assumed parity law: " + json.dumps(lb[:3])))
